@@ -322,11 +322,13 @@ Fixpoint dom (p : hprog) (e : value) {struct p} : bool :=
   end.
 
 (* number of chunks a program appends, when that does not depend on the environment *)
+Definition is_nil (b : bexp) : bool := match b with BNil => true | _ => false end.
+
 Definition arity (p : hprog) : option nat :=
   match p with
-  | PutBytes BNil _ => Some 0
-  | PutBytes _ (Some n) => if 0 <? n then Some 1 else None
-  | PutBytes _ None => None
+  | PutBytes b d =>
+    if is_nil b then Some 0
+    else match d with Some n => if 0 <? n then Some 1 else None | None => None end
   | PutBytesN _ n => if 0 <? n then Some 1 else None
   | ForEach _ _ => None
   | IfNonEmpty _ _ => None
